@@ -10,7 +10,7 @@ use serde_json::Value;
 pub static ENGINE: Engine = Engine {
     prop: "C03",
     level: "model_checking",
-    rule: "state-space closure through BDDEnv<usize>: states = Boolean functions over k ordered variables with non-adjacent ids, held as the diagrams the engine itself produced; BFS from {true,false,var(s)} under not/and/or/implies/eq/xor/nor/nand until a round adds nothing (must reach all 2^(2^k)); then EVERY operator on EVERY operand tuple (k=2 and k=3 complete for unary and binary, ite complete for k=2 and with the condition restricted to constants/variables for k=3 in quick, complete 256^3 in thorough); plus the same sweep with operands that were never interned in the operating environment (plain diagrams as obtained from BDD::from or another environment), F_4 x basis sweeps and a 185-member family over 6 variables. Oracle: truth table of the result = pointwise operation of the operand tables, operands structurally unchanged. Thorough tier additionally: COMPLETE operand pairs over F_4 (2^16 x 2^16 = 4.3e9 per connective) for each of the API's seven binary connectives; every unary/binary connective on all of F_3 in a BDDEnv<NamedSymbol> whose ids agree in their low 32 bits (both tiers). distinct = distinct (operator, operand tuple)",
+    rule: "state-space closure through BDDEnv<usize>: states = Boolean functions over k ordered variables with non-adjacent ids, held as the diagrams the engine itself produced; BFS from {true,false,var(s)} under not/and/or/implies/eq/xor/nor/nand until a round adds nothing (must reach all 2^(2^k)); then EVERY operator on EVERY operand tuple (k=2 and k=3 complete for unary and binary, ite complete for k=2 and with the condition restricted to constants/variables for k=3 in quick, complete 256^3 in thorough); plus the same sweep with operands that were never interned in the operating environment (plain diagrams as obtained from BDD::from or another environment), F_4 x basis sweeps and a 185-member family over 6 variables. Oracle: truth table of the result = pointwise operation of the operand tables, operands structurally unchanged. One representative of each of the 222 classes of four-variable functions (under input permutation / input negation / output negation) against ALL 65 536 functions in both operand positions under and / or (every connective in thorough). Thorough tier additionally: COMPLETE operand pairs over F_4 (2^16 x 2^16 = 4.3e9 per connective) for and / or (the connectives with a recursion of their own; VCHECK_PAIRS4_OPS=all for all seven); every unary/binary connective on all of F_3 in a BDDEnv<NamedSymbol> whose ids agree in their low 32 bits (both tiers). distinct = distinct (operator, operand tuple)",
     assumptions: &["truth tables are read by an independent walker that addresses variables by symbol", "k <= 4 variables (small scope in the number of variables; closure argument of DESIGN.md §1 makes depth unbounded)"],
     max_shards: 64,
     run,
@@ -97,6 +97,8 @@ fn run(ctx: &mut Ctx) {
         pairs4_sweep(ctx, ORACLE, TAG, &ops, "pairs_k4_complete");
     }
     sweep_named_wide(ctx, ORACLE, TAG);
+    // every shape of four-variable function against all of F_4, both operand positions
+    reps4_sweep(ctx, ORACLE, TAG, if ctx.thorough() { &crate::refl::ALL_BINS } else { &[crate::refl::Bin::And, crate::refl::Bin::Or] });
     sweep_family6(ctx, ORACLE, TAG);
     let s4 = ctx.globals.get("states_k4").copied().unwrap_or(0);
     ctx.global("states", states + s4);
